@@ -18,6 +18,7 @@ from __future__ import annotations
 import copy
 import itertools
 import math
+import re
 
 import pandas as pd
 
@@ -213,10 +214,6 @@ def check_kinds(fam):
     return ks
 
 
-def _key(v):
-    return (0, v) if not isinstance(v, str) else (1, v)
-
-
 def make_check(kind, fam, pick, variant=0):
     """pick(list) -> element.  Returns a check spec."""
     vals = VALUES.get(fam) or VALUES["int"]
@@ -303,7 +300,7 @@ def level(name=None, dtype="int64", **kw):
 
 def base_spec(columns=None, index=None, **kw):
     d = copy.deepcopy(FRAME_DEFAULT)
-    d["columns"] = columns if columns is not None else [col("a")]
+    d["columns"] = columns if columns is not None else [col("c0")]
     d["index"] = index
     d.update(kw)
     return d
@@ -341,6 +338,11 @@ def build(spec):
 # ---------------------------------------------------------------------------
 # features / neutralisation / tokens
 
+def benign_name(n):
+    """Column labels c0, c1, ... are the generator's neutral labels."""
+    return isinstance(n, str) and re.fullmatch(r"c\d+", n) is not None
+
+
 def features(spec):
     """Paths of all non-default entries, most specific first."""
     out = []
@@ -364,7 +366,7 @@ def features(spec):
             for k, dflt in dflts.items():
                 if k not in ("checks", "name") and c[k] != dflt:
                     out.append((part, i, k))
-            if part == "columns" and c["name"] != f"c{i}":
+            if part == "columns" and not benign_name(c["name"]):
                 out.append((part, i, "name"))
             if part == "index" and c["name"] is not None:
                 out.append((part, i, "name"))
@@ -510,15 +512,14 @@ def tokens(spec):
             kinds = [k["kind"] for k in c["checks"]]
             if len(kinds) != len(set(kinds)):
                 t.append(f"{pre}.checks:duplicate-kind")
+            if part == "columns" and not benign_name(c["name"]):
+                t.append("col.name:" + "+".join(str_class(c["name"])))
             for k, dflt in dflts.items():
                 if k in ("checks",):
                     continue
                 v = c[k]
                 if k == "name":
-                    if part == "columns":
-                        if v != f"c{i}":
-                            t.append("col.name:" + "+".join(str_class(v)))
-                    elif v is not None:
+                    if v is not None:
                         t.append("idx.name:" + "+".join(str_class(v)))
                 elif v != dflt:
                     if k in ("title", "description"):
@@ -547,8 +548,9 @@ def _opt_subsets():
     return out
 
 
-def catalogue():
-    """List of (label, spec)."""
+def catalogue(full=True):
+    """List of (label, spec).  ``full=False``: one value per string class,
+    four variants per check kind, option subsets on three kinds (quick)."""
     out = []
     add = lambda label, s: out.append((label, s))
     two = lambda: [col("c0"), col("c1", "str")]
@@ -567,14 +569,14 @@ def catalogue():
               "category"):
         add(f"frame.dtype:{d}", base_spec([col("c0", None)], dtype=d))
     for cls, vals in STR.items():
-        for v in vals:
+        for v in (vals if full else vals[:1]):
             for k in ("title", "description", "name"):
                 add(f"frame.{k}:{cls}", base_spec(two(), **{k: v}))
                 add(f"col.{k}:{cls}", base_spec(
                     [col("c0", **({k: v} if k != "name" else {})),
                      col(v if k == "name" else "c1", "str")]))
                 add(f"idx.{k}:{cls}", base_spec(
-                    two(), index=[level("i", **{k: v})]))
+                    two(), index=[level(**{"name": "i", k: v})]))
             add(f"mi.name:{cls}", base_spec(
                 two(), index=[level(v), level("j", "str")]))
     for v in (1, 0, -3):
@@ -614,7 +616,7 @@ def catalogue():
             "timedelta": "timedelta64[ns]", "cat": "category"}
     for fam, dt in fams.items():
         for kind in check_kinds(fam):
-            nvar = max(4, len(VALUES.get(fam, [])))
+            nvar = min(8, max(4, len(VALUES.get(fam, [])))) if full else 4
             for variant in range(nvar):
                 c = make_check(kind, fam, pick, variant)
                 if variant % 2 and kind in ALIASES:
@@ -627,7 +629,8 @@ def catalogue():
             if fam in ("int", "str"):
                 add(f"frame.check:{kind}:{fam}", base_spec(
                     [col("c0", dt), col("c1", dt)], checks=[c]))
-    for kind in check_kinds("int") + ["str_length"]:
+    for kind in (check_kinds("int") + ["str_length"] if full else
+                 ["greater_than", "isin", "in_range", "str_length"]):
         fam = "str" if kind.startswith("str") else "int"
         for opts in _opt_subsets():
             c = make_check(kind, fam, pick, 0)
@@ -766,3 +769,4 @@ def _add_random_feature(spec, rng):
     else:
         part, i = rng.choice(comps)
         spec[part][i]["dtype"] = rng.choice(DTYPES + PARAM_DTYPES)
+        spec[part][i]["checks"] = []     # keep check arguments coherent
